@@ -12,7 +12,8 @@ from hypothesis import strategies as st
 
 KINDS = ["gen", "coro", "agen", "func"]
 TARGET_FORMS = ["none", "name", "attr", "nested_attr", "sub", "subname", "call_sub", "tuple", "list", "star",
-                "star_mid", "nested_unpack", "walrus", "arith", "kwcall", "slice"]
+                "star_mid", "nested_unpack", "walrus", "arith", "kwcall", "slice", "sub_chain", "attr_sub", "call_args",
+                "star_first", "tuple_attr_sub", "global_name"]
 JUMPS = ("ret", "retk", "retv", "raise", "break", "continue")
 
 
@@ -326,4 +327,39 @@ def table_programs():
         conds = [c0, True] + [False] * 14
         out.append({"kind": kind, "body": stmts, "conds": conds, "sched": ["send"], "extarg": False,
                     "table": [kind, is_async, shape, place, end, c0, swallow], "n": {"m": 2, "c": 2, "s": ctr[0], "p": 0}})
+    out.extend(deep_programs())
+    return out
+
+
+def deep_programs():
+    """Block nesting at and just below the compiler's limit of 20 statically nested blocks (the frame's block stack is
+    then completely full on interpreters that have one)."""
+    out = []
+    for kind, is_async, style, n, raises in itertools.product(["gen", "coro", "func"], [False, True],
+                                                              ["items", "nested", "try_mix"], [18, 19, 20], [False, True]):
+        if is_async and kind != "coro":
+            continue
+        leaf = {"t": "susp", "k": 1} if kind != "func" else {"t": "probe", "k": 1}
+        inner = [leaf] + ([{"t": "if", "c": 0, "body": [{"t": "raise"}], "orelse": []}] if raises else [])
+
+        def item(m, last=False):
+            return {"m": m, "target": "name" if m % 3 else "none", "swallow": raises and last, "senter": False,
+                    "sexit": is_async and last, "xraise": False}
+        if style == "items":
+            body = [{"t": "with", "async": is_async, "items": [item(i + 1, i == n - 1) for i in range(n)],
+                     "layout": "paren" if n % 2 else "one", "body": inner}]
+        elif style == "nested":
+            body = inner
+            for i in range(n, 0, -1):
+                body = [{"t": "with", "async": is_async, "items": [item(i, i == n)], "layout": "one", "body": body}]
+        else:  # every level is try/finally + with: two blocks per level
+            body = inner
+            levels = n // 2
+            for i in range(levels, 0, -1):
+                body = [{"t": "try", "body": [{"t": "with", "async": is_async, "items": [item(i, i == levels)],
+                                               "layout": "one", "body": body}],
+                         "handlers": [], "orelse": [], "final": [{"t": "noop"}]}]
+        out.append({"kind": kind, "body": body, "conds": [raises] + [False] * 15, "sched": ["send"], "extarg": False,
+                    "deep": n, "table": [kind, is_async, "deep_" + style, "top", "deep%d" % n, raises, raises],
+                    "n": {"m": n, "c": 1, "s": 1, "p": 0}})
     return out
